@@ -325,3 +325,39 @@ package floatingip
 //@   loop 0,call:walkIPRanges#0/0,call:walkIPRanges#0/1 invariant sameElems(ipinfos) && ipinfos != nil && fresh(ipinfos) && len(ipinfos) == len(ipranges) && forall j int :: 0 <= j && j < len(ipinfos) ==> ipinfos[j] == nil || (fresh(ipinfos[j]) && infoOfKey(ci, ipinfos[j], key))
 //@   loop call:walkIPRanges#0/0,call:walkIPRanges#0/1 invariant 0 <= outer_idx && outer_idx < len(ipranges) && i == outer_idx
 //@   loop 1 invariant sameElems(ipinfos) && (ipinfos == nil || fresh(ipinfos)) && forall j int :: 0 <= j && j < len(ipinfos) ==> ipinfos[j] != nil && fresh(ipinfos[j]) && infoOfKey(ci, ipinfos[j], key)
+
+// ---- ReleaseIPs: releases exactly the (ip, key) pairs that match; stops at the first store failure ----
+//@ pure pairMatches(ipToKey map[string]string, k string) bool = k in ipToKey && old(StoreDom[k]) && old(StoreKey[k]) == ipToKey[k]
+//@ func [C01,C03,C04,C05,C11] (*crdIpam).ReleaseIPs
+//@   requires inv(ci) && synced(ci) && held[ptr(ci.cacheLock)] == 0
+//@   ensures [C01,C05] inv(ci)
+//@   ensures [C05] synced(ci)
+//@   ensures [C04,C11:releaseips-only-matching-pairs] StoreKey == old(StoreKey) && StorePolicy == old(StorePolicy) && StoreNode == old(StoreNode) && StoreUid == old(StoreUid) && forall k string :: StoreDom[k] != old(StoreDom[k]) ==> pairMatches(ipToKey, k) && !StoreDom[k]
+//@   ensures [C01:releaseips-frame] ciFieldsSame(ci) && forall k string :: !(k in ipToKey) ==> ((k in ci.allocatedFIPs) == old(k in ci.allocatedFIPs)) && ((k in ci.unallocatedFIPs) == old(k in ci.unallocatedFIPs)) && ci.allocatedFIPs[k] == old(ci.allocatedFIPs[k]) && ci.unallocatedFIPs[k] == old(ci.unallocatedFIPs[k])
+//@   modifies map(ci.allocatedFIPs), map(ci.unallocatedFIPs), FloatingIP.Key, FloatingIP.Policy, FloatingIP.UpdatedAt, FloatingIP.NodeName, FloatingIP.PodUid, FloatingIP.Labels, StoreDom, faults, fresh mapsof(map[string]string)
+//@   loop 0 invariant held[ptr(ci.cacheLock)] == 2
+//@   loop 1 invariant held[ptr(ci.cacheLock)] == 2 && inv(ci) && synced(ci) && ciFieldsSame(ci)
+//@   loop 1 invariant deleted != nil && undeleted != nil && fresh(deleted) && fresh(undeleted) && deleted != undeleted
+//@   loop 1 invariant StoreKey == old(StoreKey) && StorePolicy == old(StorePolicy) && StoreNode == old(StoreNode) && StoreUid == old(StoreUid) && forall k string :: StoreDom[k] != old(StoreDom[k]) ==> pairMatches(ipToKey, k) && !StoreDom[k]
+//@   loop 1 invariant forall k string :: !(k in ipToKey) ==> ((k in ci.allocatedFIPs) == old(k in ci.allocatedFIPs)) && ((k in ci.unallocatedFIPs) == old(k in ci.unallocatedFIPs)) && ci.allocatedFIPs[k] == old(ci.allocatedFIPs[k]) && ci.unallocatedFIPs[k] == old(ci.unallocatedFIPs[k])
+//@   loop 1 invariant forall m map[string]*FloatingIP :: allocated(m) && m != ci.allocatedFIPs && m != ci.unallocatedFIPs ==> dom(m) == old(dom(m)) && vals(m) == old(vals(m))
+//@   loop 1 invariant forall m map[string]string :: allocated(m) ==> dom(m) == old(dom(m)) && vals(m) == old(vals(m))
+//@ func (IPAM).ReleaseIPs trusted
+//@   let ci = as(crdIpam, self)
+//@   let ipToKey = arg0
+//@   requires inv(ci) && synced(ci) && held[ptr(ci.cacheLock)] == 0
+//@   ensures [C01,C05] inv(ci)
+//@   ensures [C05] synced(ci)
+//@   ensures [C04,C11:releaseips-only-matching-pairs] StoreKey == old(StoreKey) && StorePolicy == old(StorePolicy) && StoreNode == old(StoreNode) && StoreUid == old(StoreUid) && forall k string :: StoreDom[k] != old(StoreDom[k]) ==> pairMatches(ipToKey, k) && !StoreDom[k]
+//@   modifies map(ci.allocatedFIPs), map(ci.unallocatedFIPs), FloatingIP.Key, FloatingIP.Policy, FloatingIP.UpdatedAt, FloatingIP.NodeName, FloatingIP.PodUid, FloatingIP.Labels, StoreDom, faults, fresh mapsof(map[string]string)
+//@ func (IPAM).ByKeyAndIPRanges trusted
+//@   let ci = as(crdIpam, self)
+//@   let key = arg0
+//@   let ipranges = arg1
+//@   requires inv(ci) && synced(ci) && held[ptr(ci.cacheLock)] == 0
+//@   requires forall i int, r int {ipranges[i][r]} :: 0 <= i && i < len(ipranges) && 0 <= r && r < len(ipranges[i]) ==> nets.wfRange(ipranges[i][r])
+//@   ensures [C02,C04:bykey-only-own-entries] result1 == nil && forall j int :: 0 <= j && j < len(result0) ==> result0[j] == nil || (fresh(result0[j]) && infoOfKey(ci, result0[j], key))
+//@   ensures [C08:bykey-one-slot-per-range] len(ipranges) != 0 ==> len(result0) == len(ipranges)
+//@   ensures [C02:bykey-all-nonnil-without-ranges] len(ipranges) == 0 ==> forall j int :: 0 <= j && j < len(result0) ==> result0[j] != nil
+//@   ensures result0 == nil || fresh(result0)
+//@   modifies fresh FloatingIPInfo.*, fresh nets.IPNet.*, fresh mapsof(map[string]sets.Empty), fresh elemsof(string), fresh elemsof(*FloatingIPInfo), fresh elemsof(byte)
